@@ -420,13 +420,38 @@ pub fn abstract_ne(first: &Value, second: &Value) -> bool {
 }
 
 /// Provide abstract <= comparisons
+///
+/// Like `abstract_lt`, this compares the operands after conversion to
+/// primitives (ECMA-262 `a <= b` is `!(b < a)` unless a conversion is NaN).
+/// It is not `a < b || a == b`: `null <= 0` and `[1] <= [1]` are true even
+/// though neither `<` nor `==` holds.
 pub fn abstract_lte(first: &Value, second: &Value) -> bool {
-    abstract_lt(first, second) || abstract_eq(first, second)
+    match (
+        to_primitive(first, PrimitiveHint::Number),
+        to_primitive(second, PrimitiveHint::Number),
+    ) {
+        (Primitive::String(f), Primitive::String(s)) => f <= s,
+        (Primitive::Number(f), Primitive::Number(s)) => f <= s,
+        (Primitive::String(f), Primitive::Number(s)) => {
+            if let Some(f) = str_to_number(f) {
+                f <= s
+            } else {
+                false
+            }
+        }
+        (Primitive::Number(f), Primitive::String(s)) => {
+            if let Some(s) = str_to_number(s) {
+                f <= s
+            } else {
+                false
+            }
+        }
+    }
 }
 
 /// Provide abstract >= comparisons
 pub fn abstract_gte(first: &Value, second: &Value) -> bool {
-    abstract_gt(first, second) || abstract_eq(first, second)
+    abstract_lte(second, first)
 }
 
 /// Get the max of an array of values, performing abstract type conversion
